@@ -162,3 +162,9 @@ Proof.
   destruct (assoc_str n gen_schemas) as [s|] eqn:E; [|discriminate].
   intros [= <- <-]. eapply assoc_str_bound; eauto.
 Qed.
+
+(** ** Round 3 (seeded change C13-g): every decoded request owns its bytes.
+    Neither [startCall] nor [newRequestMessage] hands a request object a
+    buffer before it is decoded, so [decoder.bytes] allocates per call. *)
+Lemma gen_write_buf_fresh : gen_write_buf = BufFresh /\ gen_request_buffer_presets = [].
+Proof. vm_compute. split; reflexivity. Qed.
